@@ -337,6 +337,7 @@ pub fn run_property(prop: &Property, tier: Tier) -> i32 {
                     let limit = Duration::from_secs(tier.pick(s.opts().timeout_s.0, s.opts().timeout_s.1));
                     let ckpt_path = cur.with_extension("ckpt");
                     let mut skip: u64 = 0;
+                    let mut skip_inner: Option<(u64, u64)> = None;
                     let mut acc: Option<ShardResult> = None;
                     let mut restarts = 0u32;
                     let res: (Result<ShardResult, String>, Option<serde_json::Value>) = loop {
@@ -357,6 +358,7 @@ pub fn run_property(prop: &Property, tier: Tier) -> i32 {
                             .arg(&cur)
                             .arg(&tmp)
                             .env("NV_SKIP_CASES", skip.to_string())
+                            .env("NV_SKIP_INNER", skip_inner.map(|(c, h)| format!("{c}:{h}")).unwrap_or_default())
                             .stdin(Stdio::null())
                             .stdout(Stdio::null())
                             .stderr(Stdio::null());
@@ -371,7 +373,13 @@ pub fn run_property(prop: &Property, tier: Tier) -> i32 {
                             Ok(c) => c,
                         };
                         let end = wait_with_timeout(&mut child, limit);
-                        let cur_case = std::fs::read(&cur).ok().and_then(|b| serde_json::from_slice::<serde_json::Value>(&b).ok());
+                        let mut cur_case = std::fs::read(&cur).ok().and_then(|b| serde_json::from_slice::<serde_json::Value>(&b).ok());
+                        // a check that runs a family of inner evaluations notes which one was running
+                        if let (Some(serde_json::Value::Object(m)), Some(h)) = (cur_case.as_mut(), std::fs::read_to_string(cur.with_extension("hint")).ok().and_then(|t| t.trim().parse::<u64>().ok())) {
+                            if m.contains_key("only") {
+                                m.insert("only".into(), serde_json::json!(h));
+                            }
+                        }
                         let why = match end {
                             ChildEnd::Exited(0) => match std::fs::read(&out).ok().and_then(|b| serde_json::from_slice::<ShardResult>(&b).ok()) {
                                 Some(r) => {
@@ -403,7 +411,18 @@ pub fn run_property(prop: &Property, tier: Tier) -> i32 {
                                         *part.excluded_known.entry(f.sig.clone()).or_insert(0) += 1;
                                     }
                                     let idx = std::fs::read_to_string(cur.with_extension("idx")).ok().and_then(|t| t.trim().parse::<u64>().ok());
-                                    let next = idx.map(|i| i + 1).unwrap_or(part.started.max(skip) + 1).max(skip + 1);
+                                    let hint = std::fs::read_to_string(cur.with_extension("hint")).ok().and_then(|t| t.trim().parse::<u64>().ok());
+                                    let next = match (idx, hint) {
+                                        // resume the same case behind the inner evaluation that died
+                                        (Some(i), Some(h)) if skip_inner.map(|(c, ph)| c != i || h > ph).unwrap_or(true) => {
+                                            skip_inner = Some((i, h));
+                                            i
+                                        }
+                                        _ => {
+                                            skip_inner = None;
+                                            idx.map(|i| i + 1).unwrap_or(part.started.max(skip) + 1).max(skip + 1)
+                                        }
+                                    };
                                     acc = Some(match acc.take() {
                                         Some(a) => a.merge(part),
                                         None => part,
